@@ -129,6 +129,44 @@ func buildCG(p *Prog) *CallGraph {
 			}
 		})
 	}
+	// ... and parameters handed on to another function's parameter (modify(edit) → modifyLocked(edit)): transitive
+	for iter := 0; iter < 4; iter++ {
+		changed := false
+		for _, fn := range p.CGFuncs {
+			allInstrs(fn, func(in ssa.Instruction) {
+				cc := callCommon(in)
+				if cc == nil || cc.IsInvoke() {
+					return
+				}
+				callee := cc.StaticCallee()
+				if callee == nil || callee.Blocks == nil {
+					return
+				}
+				for i, a := range cc.Args {
+					par, ok := strip(a).(*ssa.Parameter)
+					if !ok || i >= len(callee.Params) {
+						continue
+					}
+					if _, isSig := par.Type().Underlying().(*types.Signature); !isSig {
+						continue
+					}
+					have := map[*ssa.Function]bool{}
+					for _, f := range g.paramFuncs[callee.Params[i]] {
+						have[f] = true
+					}
+					for _, f := range g.paramFuncs[par] {
+						if !have[f] {
+							g.paramFuncs[callee.Params[i]] = append(g.paramFuncs[callee.Params[i]], f)
+							changed = true
+						}
+					}
+				}
+			})
+		}
+		if !changed {
+			break
+		}
+	}
 	// composite literals with function fields are lowered to FieldAddr stores, covered above.
 	for _, fn := range p.CGFuncs {
 		fn := fn
